@@ -354,8 +354,15 @@ def step_plan(prefix, res, tier, seed, only, extra=None):
                       a, " (no bound)" if a == 16 else "; positions with more are outside the quick tier's claim"),
                   "histories": "one inductive step from an arbitrary accepted board; closure (successor accepted) is asserted by the C02 instances, "
                                "so the statement extends to histories of any length"}
+    kinds = STEP_KINDS
+    if prefix == "c10":
+        # the hash instances are the slowest of the family (13 min per cube measured): quick runs four of the seven cubes
+        cap = 1500 if tier == "quick" else 3600
+        if tier == "quick":
+            kinds = ["pawn", "king", "castle", ["knight", "bishop", "rook", "queen"][seed % 4]]
+            res.notrun.append("c10 step cubes of the other three piece kinds: thorough tier or another VERIF_SEED")
     qs = [Query("brd::%s_step_%s_a%d" % (prefix, k, a), stubbing=True, rules=board_rules(a), default_unwind=2, timeout=cap, mem_gb=10)
-          for k in STEP_KINDS]
+          for k in kinds]
     if extra:
         qs += extra
     engine.run_plan(res, filt(qs, only), workers=8)
@@ -372,7 +379,9 @@ def plan_c03(res, tier, seed, only):
     res.functions = ["Board::play_unchecked (checkers/pinned updates)", "Board::null_move (via C14)", "Board::calculate_checkers_and_pins (fresh, via C06)"]
     res.assumptions = list(BOARD_ASSUME) + ["'equals what a freshly constructed board reports' is the conjunction of this step (incremental == reference) "
                                             "and C06's fresh_equals_ref (constructor == reference)"]
-    step_plan("c03", res, tier, seed, only)
+    a = 4 if tier == "quick" else 16
+    extra = [Query("brd::c14_null_%s_a%d" % (c, a), stubbing=True, rules=board_rules(a), default_unwind=2, timeout=900 if tier == "quick" else 3000, mem_gb=10) for c in "wb"]
+    step_plan("c03", res, tier, seed, only, extra)
     return RULE
 
 
@@ -381,6 +390,8 @@ def plan_c10(res, tier, seed, only):
     res.assumptions = list(BOARD_ASSUME) + ["pre-state hash = XOR of behavioural feature keys (established for constructed boards by the builder "
                                             "sequencing harness of C09 and preserved by this step and by C14's null-move step)"]
     extra = [H("zob", n, timeout=900, mem_gb=8) for n in ["c11_linearity", "c10_without_ep"]]
+    a = 4 if tier == "quick" else 16
+    extra += [Query("brd::c14_null_%s_a%d" % (c, a), stubbing=True, rules=board_rules(a), default_unwind=2, timeout=900 if tier == "quick" else 3000, mem_gb=10) for c in "wb"]
     step_plan("c10", res, tier, seed, only, extra)
     return RULE
 
@@ -417,10 +428,11 @@ def plan_c06(res, tier, seed, only):
     cap = 900 if tier == "quick" else 3000
     mk = lambda nme, mem=8, **kw: Query("c06::" + nme, stubbing=kw.pop("stubbing", False), rules=c06_rules(a, 4), default_unwind=2, timeout=cap, mem_gb=mem, **kw)
     qs = [mk("c06_v_board_a%d" % a), mk("c06_v_fresh_a%d" % a), mk("c06_v_castle"), mk("c06_v_ep"), mk("c06_v_clocks"),
-          mk("c06_startpos"), mk("c09_build_seq", mem=14, stubbing=True)]
+          mk("c06_startpos"), mk("c09_build_seq", mem=14, stubbing=True), mk("c06_accessors_setters"),
+          mk("c06_set_half_panics", should_panic=True), mk("c06_set_full_panics", should_panic=True)]
     if tier == "thorough":
         qs += [mk("c06_v_board_a16"), mk("c06_v_fresh_a16")]
-    engine.run_plan(res, filt(qs, only), workers=7)
+    engine.run_plan(res, filt(qs, only), workers=10)
     return RULE
 
 
@@ -509,9 +521,10 @@ def plan_c16(res, tier, seed, only):
     cap = 900 if tier == "quick" else 2700
     qs = [Query("c16::c16_dispatch", stubbing=True, timeout=cap, mem_gb=8), Query("c16::c16_full_mask", stubbing=True, timeout=cap, mem_gb=8)]
     if tier == "quick":
-        rot = ["knight", "bishop", "rook", "queen"][seed % 4]
+        rot = ["bishop", "rook", "queen"][seed % 3]
         qs += cube_queries("c16_abort", ["king", "pawn", rot], [0, 1], cap, 8)
         qs += cube_queries("c01_origin", ["pawn", rot], [0], cap, 8)
+        res.notrun.append("abort/origin cubes of the other kinds (knight, two of bishop/rook/queen) and the >=2-checker cubes: thorough tier or another VERIF_SEED")
     else:
         qs += cube_queries("c16_abort", KINDS[:6], [0, 1, 2], cap, 8) + cube_queries("c01_origin", KINDS, [0, 1, 2], cap, 8)
     engine.run_plan(res, filt(qs, only), workers=12)
